@@ -185,6 +185,14 @@ func die(c Call) {
 	panic(Crash{At: c})
 }
 
+// fired notes that the planned fault is being applied (and tells the CLI log, which has no other way to know).
+func fired() {
+	Fired = true
+	if OnCall != nil {
+		OnCall(Call{Idx: -1, Op: "FAULT-FIRED"})
+	}
+}
+
 // enter is called with mu held; it may not return (crash).
 func enter(op, path string, isWrite bool) (action, Call) {
 	c := Call{Idx: Calls, Op: op, Path: disp(path)}
@@ -199,23 +207,23 @@ func enter(op, path string, isWrite bool) (action, Call) {
 	}
 	switch Kind {
 	case KCrashBefore:
-		Fired = true
+		fired()
 		die(c)
 	case KCrashAfter:
-		Fired = true
+		fired()
 		return aCrashAfter, c
 	case KError:
-		Fired = true
+		fired()
 		return aError, c
 	case KTorn:
 		if isWrite {
-			Fired = true
+			fired()
 			return aTorn, c
 		}
 		NotAppl = true
 	case KShort:
 		if isWrite {
-			Fired = true
+			fired()
 			return aShort, c
 		}
 		NotAppl = true
